@@ -1733,8 +1733,80 @@ def gen_ops(rng, sc, transports):
     return ops
 
 
+def gen_fork_scenario(rng):
+    """Scenario family "branch forked below the client's shallow boundary": a trunk R <- ... <- T and a side branch
+    whose first commit has a parent deep in the trunk (plus, sometimes, a merge parent elsewhere below the boundary).
+    The client first takes a depth-limited copy of the trunk (so it is shallow at S and HAS haves), then fetches the
+    side branch with a depth whose window cannot reach S: the only route from the wanted commits to old history
+    avoids the client's boundary, so nothing below the fork point may be assumed present.  Trees of the side branch
+    share blobs/subtrees with the fork point's tree (what a wrong "common" set would prune)."""
+    g = Graph()
+    n = rng.choice([4, 5, 6, 8])
+    trunk, trees = [], []
+    shared_blob = g.add(("blob",))
+    for k in range(n):
+        b = g.add(("blob",))
+        sub = g.add(("tree", [(M_FILE, b)]))
+        ents = [(M_FILE, b), (M_DIR, sub)]
+        if rng.random() < 0.7:
+            ents.append((M_FILE, shared_blob))
+        if trees and rng.random() < 0.5:
+            ents.append((M_DIR, g.objs[trees[-1]][1][1][1]))       # previous commit's subtree
+        t = g.add(("tree", ents))
+        parents = [trunk[-1]] if trunk else []
+        trunk.append(g.add(("commit", t, parents)))
+        trees.append(t)
+    d1 = rng.choice([1, 2, 2, 3])
+    d1 = min(d1, n - 2)
+    below = list(range(0, n - d1))                # trunk indices strictly below the boundary commit trunk[n - d1]
+    fork = rng.choice(below)
+    side = []
+    prev = trunk[fork]
+    for k in range(rng.choice([1, 1, 2, 3])):
+        b = g.add(("blob",))
+        ft = g.objs[trees[fork]][1]
+        ents = [(M_FILE, b)] + rng.sample(ft, rng.randint(1, len(ft)))      # shares entries with the fork point's tree
+        t = g.add(("tree", ents))
+        parents = [prev]
+        if k == 0 and len(below) > 1 and rng.random() < 0.3:
+            parents.append(trunk[rng.choice([i for i in below if i != fork])])
+        prev = g.add(("commit", t, parents))
+        side.append(prev)
+    srefs = {b"refs/heads/b0": trunk[-1], b"refs/heads/b1": side[-1]}
+    if rng.random() < 0.4:
+        srefs[b"refs/tags/t%d" % side[-1]] = g.add(("tag", side[-1]))
+    sender_ids = {i for i in g.closure(srefs.values()) if i in g.objs}
+    sc = {"g": g, "srefs": srefs, "sender_ids": sender_ids, "rrefs": {}, "recv_ids": set(), "state": "fork-below-boundary",
+          "repack": rng.random() < 0.3}
+    d2 = rng.randint(1, len(side) + 1)
+    return sc, d1, d2
+
+
+def gen_fork_ops(rng, sc, d1, d2, thorough=False):
+    # first fetch: any transport; second: the dulwich servers (HTTP is timing-free; TCP subject to the F4 race,
+    # which is classified), with the dulwich client and with C git as the client
+    tr1 = rng.choice(["local", "http", "http", "tcp", "git-http", "git-tcp", "cgit-sub"])
+    tr2 = rng.choice(["http"] * 4 + ["tcp"] * 2 + ["git-http", "git-tcp"] + (["local", "cgit-sub"] if thorough else []))
+    refs2 = [b"refs/heads/b1"] + [n for n in sc["srefs"] if n.startswith(b"refs/tags/") and rng.random() < 0.5]
+    v1, v2 = gen_variant(rng, tr1, "fetch"), gen_variant(rng, tr2, "fetch")
+    for v in (v1, v2):
+        v.pop("slow_client", None)
+    ops = [{"op": "fetch", "tr": tr1, "var": v1, "refs": [b"refs/heads/b0"], "depth": d1},
+           {"op": "fetch", "tr": tr2, "var": v2, "refs": sorted(refs2), "depth": d2}]
+    if rng.random() < 0.3:
+        # and once more, deeper, still short of old history in most cases
+        tr3 = rng.choice(["http", "http", "tcp", "git-http"])
+        v3 = gen_variant(rng, tr3, "fetch")
+        v3.pop("slow_client", None)
+        ops.append({"op": "fetch", "tr": tr3, "var": v3, "refs": sorted(refs2), "depth": d2 + 1})
+    return ops
+
+
 def _stream_e2e(ctx, servers):
     rng = ctx.rng
+    for _ in range(ctx.budget(25, mult=8)):
+        sc, d1, d2 = gen_fork_scenario(rng)
+        run_scenario(ctx, servers, sc, gen_fork_ops(rng, sc, d1, d2, ctx.thorough), stream="e2e")
     n = ctx.budget(150, mult=10)
     if ctx.thorough:
         transports = DUL_TRANSPORTS + GIT_TRANSPORTS
@@ -1832,6 +1904,11 @@ def search(ctx: core.Ctx):
     servers.start_capture()
     try:
         transports = DUL_TRANSPORTS + GIT_TRANSPORTS
+        for _ in range(ctx.budget(40, mult=5)):
+            sc, d1, d2 = gen_fork_scenario(rng)
+            run_scenario(ctx, servers, sc, gen_fork_ops(rng, sc, d1, d2, True), stream="search.e2e")
+            if ctx.oracle_failures:
+                return
         for _ in range(ctx.budget(60, mult=5)):
             sc = gen_scenario(rng)
             run_scenario(ctx, servers, sc, gen_ops(rng, sc, transports), stream="search.e2e")
